@@ -131,21 +131,22 @@ def translate(repo):
     expect(fn.body[1], "return res.astype(jax.dtypes.canonicalize_dtype(_fp.dtype))", "interp_maybe_batched[1]")
     expect(L[6], "interp_tb = jax.tree_util.tree_map(interp_maybe_batched, tb)", "linear[6]")
     expect(L[7], "delayed_input_state = InputState(*interp_tb, delay_dist=new_delay_dist)", "linear[7]")
-    # ---- composite: the data flow checked above ----
+    # ---- composite: the data flow checked above (the scalar kernels enter through the hand versions k_*, to which the
+    # regenerated *_src are tied up to ring identities, so that commuting an addition in the source breaks nothing) ----
     out.append("""Fixpoint first_late_src (t : Q) (l : list Q) : nat :=
   match l with [] => 0%nat | r :: l => if late_src r t then 0%nat else S (first_late_src t l) end.
 
 Definition apply_linear_src (real_only : bool) (d ts_start : Q) (window : nat) (input : list ent) (fp : list Q) : list Q :=
   let cum_window := length input in
-  let ts_recv := map (fun e => recv_src Qops (e_seq e) (e_sent e) (e_recv e) d) input in
+  let ts_recv := map (fun e => k_recv Qops (e_seq e) (e_sent e) (e_recv e) d) input in
   let idx_max := first_late_src ts_start ts_recv in
   let idx_min := idx_min_src (Z.of_nat idx_max) (Z.of_nat window) in
-  let ts_recv_mask := map (fun e => mask_src Qops real_only (e_seq e) (recv_src Qops (e_seq e) (e_sent e) (e_recv e) d)) input in
+  let ts_recv_mask := map (fun e => k_mask Qops real_only (e_seq e) (k_recv Qops (e_seq e) (e_sent e) (e_recv e) d)) input in
   (* jax.lax.dynamic_slice: a negative start is taken relative to the end, then clamped into [0, cum_window - window] *)
   let idx_min := if (idx_min <? 0)%Z then (idx_min + Z.of_nat cum_window)%Z else idx_min in
   let start := Z.to_nat (Z.max 0 (Z.min idx_min (Z.of_nat cum_window - Z.of_nat window))) in
   let ts_recv_interp := slice start window ts_recv_mask in
-  let ts_recv_interp := map (fun r => query_src Qops r ts_start (last ts_recv_interp 0%Q)) ts_recv_interp in
+  let ts_recv_interp := map (fun r => k_query Qops r ts_start (last ts_recv_interp 0%Q)) ts_recv_interp in
   map (fun x => interp x (combine ts_recv_mask fp)) ts_recv_interp.
 """)
     return "\n".join(out)
